@@ -224,6 +224,106 @@ async fn wait_gone(node: &Node, pid: &ExternalPid) -> bool {
     false
 }
 
+/// A process that does not start handling before the gate opens, then records the numbers it is handed.
+struct GatedRecorder {
+    open: Arc<std::sync::atomic::AtomicBool>,
+    seen: Arc<Mutex<Vec<(u32, i64)>>>,
+}
+
+impl Process for GatedRecorder {
+    async fn handle_message(&mut self, msg: Message) -> edp_node::Result<()> {
+        while !self.open.load(Ordering::Acquire) {
+            tokio::time::sleep(Duration::from_millis(1)).await;
+        }
+        if let Message::Regular { body: OwnedTerm::Tuple(t), .. } = msg {
+            if let (Some(OwnedTerm::Integer(sender)), Some(OwnedTerm::Integer(n))) = (t.first(), t.get(1)) {
+                self.seen.lock().unwrap().push((*sender as u32, *n));
+            }
+        }
+        Ok(())
+    }
+}
+
+/// 1..3 senders each issue a burst of numbered messages (by pid and by name) to one busy process; the burst
+/// is larger than, equal to or smaller than the mailbox. Every accepted message is handled exactly once and
+/// each sender's messages in the order that sender issued them.
+async fn burst(ctx: &Ctx, rng: &mut Rng, hid: usize) {
+    let mut node = Node::new(format!("burst{}@127.0.0.1", hid), "cookie");
+    if let Err(e) = node.start(0).await {
+        ctx.inconclusive(&format!("Node::start failed: {}", e));
+        return;
+    }
+    let node = Arc::new(node);
+    let open = Arc::new(std::sync::atomic::AtomicBool::new(false));
+    let seen: Arc<Mutex<Vec<(u32, i64)>>> = Default::default();
+    let Ok(target) = node.spawn(GatedRecorder { open: open.clone(), seen: seen.clone() }).await else {
+        ctx.inconclusive("spawn failed");
+        return;
+    };
+    let _ = node.register(Atom::new("busy"), target.clone()).await;
+    let senders = 1 + rng.below(3);
+    let per: usize = *rng.pick(&[400usize, 1000, 1001, 1100, 1800, 3000]);
+    ctx.class(&format!("burst/{}senders/{}each", senders, per));
+    let mut hs = Vec::new();
+    for sidx in 0..senders {
+        let node = node.clone();
+        let target = target.clone();
+        let by_name = rng.bool();
+        hs.push(tokio::spawn(async move {
+            let mut accepted: Vec<i64> = Vec::new();
+            for i in 0..per as i64 {
+                let body = OwnedTerm::Tuple(vec![OwnedTerm::Integer(sidx as i64), OwnedTerm::Integer(i)]);
+                let r = if by_name && i % 2 == 1 { node.send_to_name(&Atom::new("busy"), body).await } else { node.send(&target, body).await };
+                if r.is_ok() {
+                    accepted.push(i);
+                }
+            }
+            accepted
+        }));
+    }
+    // let the bursts pile up against the closed gate, then open it
+    tokio::time::sleep(Duration::from_millis(*rng.pick(&[20u64, 120]))).await;
+    open.store(true, Ordering::Release);
+    let mut accepted: Vec<Vec<i64>> = Vec::new();
+    for h in hs {
+        match tokio::time::timeout(Duration::from_secs(60), h).await {
+            Ok(Ok(a)) => accepted.push(a),
+            _ => {
+                ctx.viol("C18:burst:sender-stalled", "a sender of a burst to a busy local process did not return within 60 s", json!({"burst": hid, "senders": senders, "each": per}));
+                return;
+            }
+        }
+    }
+    let total: usize = accepted.iter().map(|a| a.len()).sum();
+    let t0 = std::time::Instant::now();
+    while t0.elapsed() < Duration::from_secs(20) && seen.lock().unwrap().len() < total {
+        tokio::time::sleep(Duration::from_millis(5)).await;
+    }
+    tokio::time::sleep(Duration::from_millis(20)).await;
+    ctx.eval(total as u64);
+    let got = seen.lock().unwrap().clone();
+    for (sidx, acc) in accepted.iter().enumerate() {
+        let mine: Vec<i64> = got.iter().filter(|(s, _)| *s as usize == sidx).map(|(_, n)| *n).collect();
+        if mine == *acc {
+            continue;
+        }
+        let mut sorted = mine.clone();
+        sorted.sort_unstable();
+        let mut want = acc.clone();
+        want.sort_unstable();
+        let (sig, msg) = if sorted == want {
+            ("C18:delivery:out-of-order:burst", "messages of one sender were handled in another order than it issued them")
+        } else if sorted.windows(2).any(|w| w[0] == w[1]) {
+            ("C18:delivery:duplicate:burst", "a message was handled more than once")
+        } else {
+            ("C18:delivery:lost:burst", "an accepted message for a live process was never handled")
+        };
+        let first_bad = mine.iter().zip(acc.iter()).position(|(a, b)| a != b).unwrap_or(mine.len().min(acc.len()));
+        ctx.viol(sig, msg, json!({"burst": hid, "senders": senders, "each": per, "sender": sidx, "accepted": acc.len(), "handled": mine.len(), "first_difference_at": first_bad,
+            "handled_there": mine.iter().skip(first_bad.saturating_sub(2)).take(6).collect::<Vec<_>>(), "issued_there": acc.iter().skip(first_bad.saturating_sub(2)).take(6).collect::<Vec<_>>()}));
+    }
+}
+
 async fn history(ctx: &Ctx, rng: &mut Rng, hid: usize, yields: bool) {
     let log: Arc<Log> = Arc::new(Log::default());
     let mut node = Node::new(format!("local{}@127.0.0.1", hid), "cookie");
@@ -605,7 +705,7 @@ async fn history(ctx: &Ctx, rng: &mut Rng, hid: usize, yields: bool) {
 }
 
 pub fn run(ctx: &Ctx) {
-    ctx.rule("histories = 3..8 recording processes, 2..6 driver tasks, 20..100 operations each over 1..3 contended names: numbered sends by pid and by name, register/unregister/whereis (call/return stamped from one counter), link/unlink on task-owned pairs, monitor/demonitor, gen_server and gen_event calls; then 1..2 processes are made to fail; offline checkers: per (sender, receiver) in-order duplicate-free complete delivery, exactly-once exit/monitor notices for links/monitors in force before the failure, dead pids and their names no longer resolve and names are reusable, per-name linearizability (exact search), one reply per behaviour call; multi-thread runtime and current-thread runtime with seeded yields at the exit-propagation hooks; evaluations = deliveries, notices, name operations and calls judged; distinct = distinct history configurations");
+    ctx.rule("histories = 3..8 recording processes, 2..6 driver tasks, 20..100 operations each over 1..3 contended names: numbered sends by pid and by name, register/unregister/whereis (call/return stamped from one counter), link/unlink on task-owned pairs, monitor/demonitor, gen_server and gen_event calls; then 1..2 processes are made to fail; offline checkers: per (sender, receiver) in-order duplicate-free complete delivery, exactly-once exit/monitor notices for links/monitors in force before the failure, dead pids and their names no longer resolve and names are reusable, per-name linearizability (exact search), one reply per behaviour call; on the multi-thread runtime additionally bursts of 400..3000 numbered messages from 1..3 senders to a process held busy behind a gate (around the mailbox capacity), handled exactly once and in each sender's order; multi-thread runtime and current-thread runtime with seeded yields at the exit-propagation hooks; evaluations = deliveries, notices, name operations and calls judged; distinct = distinct history configurations");
     ctx.assume("links/monitors are compared as of a quiescent barrier before the failing message is sent; messages accepted after a process was sent its failing message are not required to be handled");
     let mut rng = Rng::derive(ctx.seed, 18, 1);
     let n = ctx.pick(60usize, 8000usize);
@@ -630,6 +730,9 @@ pub fn run(ctx: &Ctx) {
                     break;
                 }
                 history(ctx, &mut rng, 100_000 + i, false).await;
+                if i % 6 == 0 {
+                    burst(ctx, &mut rng, 200_000 + i).await;
+                }
             }
         });
     }
